@@ -15,6 +15,7 @@ Fixpoint ltoks (A : layout) : list (tkind * bytes) :=
   | [] => []
   | PSep _ :: r => ltoks r
   | PTok k v :: r => (k, tokval k v) :: ltoks r
+  | PBlk _ s :: r => (BLOCK_STRING, s) :: ltoks r
   end.
 
 (* a string value the printer's quoting is proved to preserve: valid UTF-8 *)
@@ -33,10 +34,10 @@ Definition toks_wf (p : list token) : Prop := forallb tok_wf p = true.
 Fixpoint gnl (g : gt) : gt := match g with G t a _ _ kids => G t a 0 0 (map gnl kids) end.
 
 Lemma ltoks_app : forall A B, ltoks (A ++ B) = ltoks A ++ ltoks B.
-Proof. induction A as [|[k v|s] A IH]; intro B; cbn [app ltoks]; [reflexivity|rewrite IH; reflexivity|apply IH]. Qed.
+Proof. induction A as [|[k v|s|d s] A IH]; intro B; cbn [app ltoks]; [reflexivity|rewrite IH; reflexivity|apply IH|rewrite IH; reflexivity]. Qed.
 
 Lemma sig_ptoks : forall A pos, map sig (ptoks pos A) = ltoks A.
-Proof. induction A as [|[k v|s] A IH]; intro pos; cbn [ptoks ltoks map]; [reflexivity|rewrite IH; reflexivity|apply IH]. Qed.
+Proof. induction A as [|[k v|s|d s] A IH]; intro pos; cbn [ptoks ltoks map]; [reflexivity|rewrite IH; reflexivity|apply IH|rewrite IH; reflexivity]. Qed.
 
 Lemma ltoks_ljoin_ne : forall l sep, ltoks (ljoin_ne l sep) = flat_map ltoks l.
 Proof.
@@ -53,7 +54,7 @@ Qed.
 Lemma ltoks_lwrap : forall a m b, ltoks (lwrap a m b) = if is_nil m then [] else ltoks a ++ ltoks m ++ ltoks b.
 Proof. intros a m b. unfold lwrap. destruct (is_nil m); [reflexivity|]. rewrite !ltoks_app. reflexivity. Qed.
 Lemma ltoks_lindent : forall A, ltoks (lindent A) = ltoks A.
-Proof. induction A as [|[k v|s] A IH]; cbn [lindent map ltoks]; [reflexivity|unfold lindent in IH; rewrite IH; reflexivity|apply IH]. Qed.
+Proof. induction A as [|[k v|s|d s] A IH]; cbn [lindent map ltoks]; [reflexivity|unfold lindent in IH; rewrite IH; reflexivity|apply IH|unfold lindent in IH; rewrite IH; reflexivity]. Qed.
 
 Lemma toks_wf_app : forall p q, toks_wf (p ++ q) -> toks_wf p /\ toks_wf q.
 Proof. intros p q H. unfold toks_wf in *. rewrite forallb_app in H. apply andb_true_iff in H. exact H. Qed.
@@ -444,17 +445,16 @@ Proof. intros [|c s] H; [reflexivity|]. cbn [indent_bytes] in H. destruct (c =? 
 
 Lemma lindent_hd : forall X L, hd_error (flat (lindent X ++ L)) = hd_error (flat (X ++ L)).
 Proof.
-  induction X as [|p X IH]; intro L; [reflexivity|]. destruct p as [k v|s]; cbn [lindent map app].
-  - change (flat (PTok k v :: map (fun p => match p with PSep s => PSep (indent_bytes s) | t => t end) X ++ L))
-      with (render_piece (PTok k v) ++ flat (lindent X ++ L)).
+  induction X as [|p X IH]; intro L; [reflexivity|]. destruct p as [k v|s|d s]; cbn [lindent map app]; fold (lindent X).
+  - change (flat (PTok k v :: lindent X ++ L)) with (render_piece (PTok k v) ++ flat (lindent X ++ L)).
     change (flat (PTok k v :: X ++ L)) with (render_piece (PTok k v) ++ flat (X ++ L)).
     destruct (render_piece (PTok k v)) as [|b r] eqn:E; [cbn [app]; apply IH|reflexivity].
-  - change (flat (PSep (indent_bytes s) :: map (fun p => match p with PSep s => PSep (indent_bytes s) | t => t end) X ++ L))
-      with (indent_bytes s ++ flat (lindent X ++ L)).
+  - change (flat (PSep (indent_bytes s) :: lindent X ++ L)) with (indent_bytes s ++ flat (lindent X ++ L)).
     change (flat (PSep s :: X ++ L)) with (s ++ flat (X ++ L)).
     destruct s as [|c s']; [cbn [indent_bytes app]; apply IH|].
     pose proof (indent_bytes_hd (c :: s')) as Hh. destruct (indent_bytes (c :: s')) as [|c' s'']; [discriminate Hh|].
     cbn [app hd_error] in *. exact Hh.
+  - reflexivity.
 Qed.
 
 Lemma indent_sep_eq : forall s, forallb is_sep_byte (indent_bytes s) = forallb is_sep_byte s.
@@ -466,9 +466,10 @@ Qed.
 
 Lemma lindent_wfb : forall X L, layout_wfb (lindent X ++ L) = layout_wfb (X ++ L).
 Proof.
-  induction X as [|p X IH]; intro L; [reflexivity|]. destruct p as [k v|s]; cbn [lindent map app layout_wfb].
+  induction X as [|p X IH]; intro L; [reflexivity|]. destruct p as [k v|s|d s]; cbn [lindent map app layout_wfb].
   - fold (lindent X). rewrite IH. f_equal. apply piece_wfb_hd. apply lindent_hd.
   - fold (lindent X). rewrite IH, indent_sep_eq. reflexivity.
+  - fold (lindent X). rewrite IH. reflexivity.
 Qed.
 
 Lemma lindent_P1 : forall X, P1 X -> P1 (lindent X).
